@@ -287,8 +287,69 @@ def overlaps_shifted(target, e):
     return False
 
 
-def gen_stmt(rng, kinds=("assign", "compound", "where", "fill", "reduce", "noalias")):
+def index_vector_cxx(idx, mode):
+    """C++ block prefix declaring intVector I (contents idx) as a contiguous vector, a stride-2 view or a reversed view"""
+    n = len(idx)
+    if mode == 0:
+        pre = "intVector IP(%d); intVector I; I >>= IP;" % n
+    elif mode == 1:
+        pre = "intVector IP(%d); IP = -99; intVector I; I >>= IP(stride(0,%d,2));" % (2 * n, 2 * n - 2)
+    else:
+        pre = "intVector IP(%d); intVector I; I >>= IP(stride(%d,0,-1));" % (n, n - 1)
+    return pre + " " + " ".join("I(%d) = %d;" % (k, v) for k, v in enumerate(idx))
+
+
+def gen_extra(rng):
+    """statement kinds outside the Coq model (specification only): integer-vector-indexed targets and sources, find, minloc, maxloc,
+    mean / product / maxval / minval along a dimension"""
+    kind = rng.choice(["scatter", "scatter", "gather", "gather", "find", "minloc", "maxloc", "reddim"])
+    if kind in ("scatter", "gather"):
+        L = rng.randint(2, 7)
+        n = rng.randint(1, L)
+        big = random_view(rng, [L], "P")
+        if big is None or len(set(big.cells)) != len(big.cells):
+            return None
+        mode = rng.randrange(3)
+        if kind == "scatter":
+            idx = rng.sample(range(L), n)                       # distinct: the stored positions do not depend on the order
+            e = gen_expr(rng, [n], rng.choice([0, 1, 1]), "P", rng.choice([0.0, 0.0, 0.5]), ("leaf", "scalar", "neg", "bin"))
+            if not leaves(e):
+                return None
+            # aliasing between the right-hand side and the indexed target is outside the documented alias detection: keep them apart
+            tset = set(big.cells)
+            if any(v.name == big.name and any(c in tset for c in v.cells) for v in leaves(e)):
+                return None
+            return Stmt("scatter", target=big, idx=idx, mode=mode, e=e)
+        idx = [rng.randrange(L) for _ in range(n)]
+        t = random_view(rng, [n], "Q")
+        if t is None or len(set(t.cells)) != len(t.cells):
+            return None
+        e = gen_expr(rng, [n], rng.choice([0, 1]), "Q", 0.0, ("leaf", "scalar", "neg", "bin"))
+        tset = set(t.cells)
+        if any(v.name == t.name and any(c in tset for c in v.cells) for v in leaves(e)):
+            return None
+        return Stmt("gather", target=t, src=big, idx=idx, mode=mode, e=e, op=rng.choice(["+", "*", "-"]))
+    if kind in ("find", "minloc", "maxloc"):
+        n = rng.randint(1, 7)
+        e = gen_expr(rng, [n], rng.choice([0, 1, 1, 2]), "P", 0.5, ("leaf", "neg", "bin"))
+        if not leaves(e):
+            return None
+        return Stmt(kind, e=e, dims=[n], c=rng.randint(-1, 3))
+    rank = rng.choice([2, 2, 3])
+    dims = [rng.choice([1, 2, 3, 4]) for _ in range(rank)]
+    e = gen_expr(rng, dims, rng.choice([0, 1]), "P", 0.5, ("leaf", "neg", "bin"))
+    if not leaves(e):
+        return None
+    red = rng.choice(["sum", "product", "maxval", "minval"])
+    if red == "product" and prod(dims) > 12:
+        return None
+    return Stmt("reddim", red=red, e=e, dims=dims, dim=rng.randrange(rank))
+
+
+def gen_stmt(rng, kinds=("assign", "compound", "where", "fill", "reduce", "noalias", "extra")):
     kind = rng.choice(kinds)
+    if kind == "extra":
+        return gen_extra(rng)
     rank = rng.choice([1, 1, 2, 2, 3])
     for _ in range(100):
         dims = [rng.choice([1, 2, 3, 4, 5]) for _ in range(rank)]
@@ -364,10 +425,22 @@ def stmt_cxx(s, ty="double"):
         if s.red == "count_gt":
             return "RESULT(count(%s > %s(0)));" % (cxx(s.e, ty), ty)
         return "RESULT(%s(%s));" % (s.red, cxx(s.e, ty))
+    if s.kind == "scatter":
+        return "{ %s %s(I) = %s; }" % (index_vector_cxx(s.idx, s.mode), s.target.text, cxx(s.e, ty))
+    if s.kind == "gather":
+        return "{ %s %s = %s(I) %s %s; }" % (index_vector_cxx(s.idx, s.mode), s.target.text, s.src.text, s.op, cxx(s.e, ty))
+    if s.kind == "find":
+        return "RESULTI(find(%s > %s(%d)));" % (cxx(s.e, ty), ty, s.c)
+    if s.kind in ("minloc", "maxloc"):
+        return "RESULT(%s(%s));" % (s.kind, cxx(s.e, ty))
+    if s.kind == "reddim":
+        return "RESULTA(%s(%s,%d));" % (s.red, cxx(s.e, ty), s.dim)
     raise ValueError(s.kind)
 
 
 def stmt_sx(s, layout):
+    if s.kind in ("scatter", "gather", "find", "minloc", "maxloc", "reddim"):
+        return None            # outside the Coq model: specification only
     if s.kind == "fill":
         return "(fill %s %d)" % (sx_view(s.target, layout), s.c)
     if s.kind == "assign":
@@ -405,6 +478,37 @@ def stmt_spec(s):
         for k, i in enumerate(idxs):
             if mask[k]:
                 mem[t.name][t.cells[k]] = vals[k]
+    elif s.kind == "scatter":
+        t = s.target
+        vals = [spec_eval(s.e, mem, (k,)) for k in range(len(s.idx))]
+        for k, i in enumerate(s.idx):
+            mem[t.name][t.cells[i]] = vals[k]
+    elif s.kind == "gather":
+        t = s.target
+        f = {"+": lambda a, b: a + b, "-": lambda a, b: a - b, "*": lambda a, b: a * b}[s.op]
+        vals = [f(mem[s.src.name][s.src.cells[i]], spec_eval(s.e, mem, (k,))) for k, i in enumerate(s.idx)]
+        for k in range(len(s.idx)):
+            mem[t.name][t.cells[k]] = vals[k]
+    elif s.kind == "find":
+        result = [k for k in range(s.dims[0]) if spec_eval(s.e, mem, (k,)) > s.c]
+    elif s.kind in ("minloc", "maxloc"):
+        vals = [spec_eval(s.e, mem, (k,)) for k in range(s.dims[0])]
+        best = min(vals) if s.kind == "minloc" else max(vals)
+        result = [vals.index(best)]
+    elif s.kind == "reddim":
+        out_dims = [d for k, d in enumerate(s.dims) if k != s.dim]
+        result = []
+        for oi in all_idx(out_dims):
+            vals = [spec_eval(s.e, mem, tuple(list(oi[:s.dim]) + [kk] + list(oi[s.dim:]))) for kk in range(s.dims[s.dim])]
+            if s.red == "sum":
+                result.append(sum(vals))
+            elif s.red == "product":
+                r = 1
+                for v in vals:
+                    r *= v
+                result.append(r)
+            else:
+                result.append(max(vals) if s.red == "maxval" else min(vals))
     else:
         idxs = all_idx(s.dims)
         if s.red == "dot":
@@ -487,4 +591,21 @@ def boundary_stmts():
                     t = V("P1", "P1(range(%d,%d),%d)" % (ts, ts + n - 1, j), [(i, j) for i in range(ts, ts + n)], [n])
                     v = V("P1", "P1(range(%d,%d),%d)" % (os_, os_ + n - 1, j), [(i, j) for i in range(os_, os_ + n)], [n])
                     out.append(Stmt("assign", target=t, e=E("leaf", v)))
+    # every reduction along every dimension of whole rank-2 and rank-3 parents and of one strided / reversed view of each
+    for name in ("P1", "P2", "Q2", "P3"):
+        pv = parent_view(name)
+        views = [pv]
+        d = PARENTS[name]
+        if len(d) == 3:
+            cells = [(i, j, k) for i in range(d[0] - 1, -1, -1) for j in range(d[1]) for k in range(0, d[2], 2)]
+            views.append(V(name, "%s(stride(%d,0,-1),__,stride(0,%d,2))" % (name, d[0] - 1, d[2] - 1 - (d[2] - 1) % 2), cells, [d[0], d[1], len(range(0, d[2], 2))]))
+        else:
+            cells = [(i, j) for i in range(0, d[0], 2) for j in range(d[1] - 1, -1, -1)]
+            views.append(V(name, "%s(stride(0,%d,2),stride(%d,0,-1))" % (name, d[0] - 1 - (d[0] - 1) % 2, d[1] - 1), cells, [len(range(0, d[0], 2)), d[1]]))
+        for v in views:
+            for dim in range(len(v.dims)):
+                for red in ("sum", "maxval", "minval", "product"):
+                    if red == "product" and v.dims[dim] > 6:
+                        continue
+                    out.append(Stmt("reddim", red=red, e=E("leaf", v), dims=list(v.dims), dim=dim))
     return out
